@@ -3057,3 +3057,81 @@ func ruleFrameStays(c *Ctx, r *Report) {
 	}
 	r.analysed(rule, fname(tr))
 }
+
+// ---------------------------------------------------------------------------
+// R-GOAL-STACK (C01; added after seed C01h): "goals are selected left to right". An iterator over the goals of a
+// body that goes DOWN the left operand of a conjunction and keeps the right operands for later has to give them
+// back newest first - the operand kept last belongs to the innermost conjunction. Wherever a method of the goal
+// iterators (seqIterator, altIterator) both appends to a slice field of the iterator and takes elements out of
+// it, it takes them from the end: an element read at the constant index 0 together with a reslice from 1 is a
+// queue, and ((A, B), C) runs as A, C, B.
+func ruleGoalStack(c *Ctx, r *Report) {
+	const rule = "R-GOAL-STACK"
+	desc := "operands a goal iterator keeps for later come back newest first"
+	n := 0
+	for _, tn := range []string{"seqIterator", "altIterator"} {
+		next := c.method(tn, "Next")
+		if next == nil {
+			r.undecided(rule, "anchor:"+tn+".Next", "-", desc, "not found")
+			continue
+		}
+		// slice fields of the receiver that are appended to
+		appended := map[int]bool{}
+		recv := ssa.Value(next.Params[0])
+		fieldOf := func(v ssa.Value) (int, bool) {
+			ld, ok := v.(*ssa.UnOp)
+			if !ok || ld.Op != token.MUL {
+				return 0, false
+			}
+			fa, ok := ld.X.(*ssa.FieldAddr)
+			if !ok || fa.X != recv {
+				return 0, false
+			}
+			if _, isSlice := fa.Type().(*types.Pointer).Elem().Underlying().(*types.Slice); !isSlice {
+				return 0, false
+			}
+			return fa.Field, true
+		}
+		eachInstr(next, func(in ssa.Instruction) {
+			if call, ok := in.(*ssa.Call); ok {
+				if b, ok := call.Call.Value.(*ssa.Builtin); ok && b.Name() == "append" {
+					if f, ok := fieldOf(call.Call.Args[0]); ok {
+						appended[f] = true
+					}
+				}
+			}
+		})
+		for f := range appended {
+			n++
+			key := fmt.Sprintf("%s/field#%d", fname(next), f)
+			var front ssa.Instruction
+			eachInstr(next, func(in ssa.Instruction) {
+				switch x := in.(type) {
+				case *ssa.IndexAddr:
+					if ff, ok := fieldOf(x.X); ok && ff == f {
+						if k, isConst := constInt(x.Index); isConst && k == 0 {
+							// ... together with a reslice from 1
+							eachInstr(next, func(in2 ssa.Instruction) {
+								if sl, ok := in2.(*ssa.Slice); ok && sl.Low != nil {
+									if ff2, ok := fieldOf(sl.X); ok && ff2 == f {
+										if k2, isConst := constInt(sl.Low); isConst && k2 == 1 {
+											front = in
+										}
+									}
+								}
+							})
+						}
+					}
+				}
+			})
+			if front == nil {
+				r.ok(rule, key, c.Pos(next.Pos()), desc, "no element is taken from the front of the kept operands", true)
+			} else {
+				r.bad(rule, key, c.at(front), desc, "elements are appended at the end and taken from the front (index 0, reslice from 1): operands kept while going down the left of nested conjunctions come back oldest first, so ((A, B), C) runs as A, C, B")
+			}
+		}
+	}
+	if n == 0 {
+		r.info(rule, "scan/kept-operands", "-", desc, "the goal iterators keep no operands in a slice (they re-associate the term instead)")
+	}
+}
